@@ -46,6 +46,11 @@ func run(c *props.Ctx) {
 	plycommon.ReaderPlumbing(e)
 	plycommon.REC1Driver(e)
 	plycommon.NAME1(e)
+	plycommon.SENT1(e)
+	plycommon.LINE1(e)
+	plycommon.BYTES1(e)
+	plycommon.TOKSEP1(e)
+	plycommon.UNW1(e)
 	ft := plycommon.FormatTable(e, false, true)
 	decode := map[*ssa.Function]bool{}
 	for _, f := range e.DecodeScope() {
@@ -71,6 +76,11 @@ func run(c *props.Ctx) {
 	c.R.Floor("REC-1", 14)
 	c.R.Floor("LAY-5", 2)
 	c.R.Floor("NAME-1", 5)
+	c.R.Floor("SENT-1", 15)
+	c.R.Floor("LINE-1", 2)
+	c.R.Floor("BYTES-1", 1)
+	c.R.Floor("TOKSEP-1", 4)
+	c.R.Floor("UNW-1", 1)
 	c.R.Floor("LAY-10", 11)
 	c.R.Floor("CFG-1", 8)
 }
